@@ -13,7 +13,7 @@ KINDS = ['ok', 'stream', 'ctx', 'static', 'static304', 'redirect', 'slashredirec
          'notfound', 'wrongmethod', 'boom', 'boombraces', 'ret400braces',
          'debugboom', 'meta', 'gzip', 'cache',
          'empty', 'ret403', 'reroute', 'reroute_raise', 'unicode_header', 'ret403msg', 'raise404msg', 'raise409nl',
-         'gzip_static', 'gzip_static304', 'gzip_stream', 'cache_static']
+         'gzip_static', 'gzip_static304', 'gzip_stream', 'cache_static', 'reroute_failing', 'reroute_raise_failing']
 METHODS = ['GET', 'HEAD', 'POST', 'OPTIONS']
 
 
@@ -68,6 +68,9 @@ def build_stack_app(case):
             app.add(SubApplication(r['prefix'], mk_app(r['sub'])))
         else:
             app.add(__import__('clastic').Route(r['pattern'], ep, middlewares=[mw(m) for m in r['mws']]))
+    if case.get('late_handler'):
+        # the operator swaps the error handler of the finished application (public API); the new one has no WSGI wrapper
+        app.set_error_handler(ErrorHandler())
     return app
 
 
@@ -139,6 +142,12 @@ def build_kind_app(kind, tmpdir, target_kind='plain203'):
         start_response(t_status, list(t_headers))
         _SEQ.append(('target', id(environ), sorted((k, repr(v)) for k, v in environ.items())))
         return [] if environ['REQUEST_METHOD'] == 'HEAD' else list(t_body)      # the target itself conforms
+    if kind.endswith('_failing'):
+        # a faulty target: it starts its response and then breaks; relaying means the server sees exactly that
+        def target(environ, start_response):
+            start_response('200 OK', [('Content-Type', 'text/plain'), ('X-Target', 'yes')])
+            _SEQ.append(('target', id(environ), sorted((k, repr(v)) for k, v in environ.items())))
+            raise RuntimeError('the target broke after start_response')
     if target_kind == 'clastic_app':
         # the target is itself a clastic Application whose answer depends on its own WSGI layer (a middleware's wsgi_wrapper):
         # "the target WSGI application" is the callable, wrappers included
@@ -197,9 +206,11 @@ def build_kind_app(kind, tmpdir, target_kind='plain203'):
     return app
 
 
-def record(app, env, head):
-    """-> (events, problems): the (environ, start_response) interaction of one request"""
-    events, problems = [], []
+def record(app, env, head, events=None, problems=None):
+    """-> (events, problems): the (environ, start_response) interaction of one request (the lists are filled in place, so
+    that what happened before an escaping exception is not lost)"""
+    events = [] if events is None else events
+    problems = [] if problems is None else problems
 
     def start_response(status, headers, exc_info=None):
         so = isinstance(status, str) and re.fullmatch(r'\d{3} [^\x00-\x1f\x7f]+', status) is not None
@@ -257,6 +268,7 @@ def impl_kind(case):
                 'reroute_raise': '/reroute_raise', 'unicode_header': '/unicode_header',
                 'ret403msg': '/ret403msg', 'raise404msg': '/raise404msg', 'raise409nl': '/raise409nl',
                 # file-backed and streamed responses THROUGH the body-processing middlewares
+                'reroute_failing': '/reroute', 'reroute_raise_failing': '/reroute_raise',
                 'gzip_static': '/static/file.txt', 'gzip_static304': '/static/file.txt', 'gzip_stream': '/stream', 'cache_static': '/static/file.txt',
                 # a slash redirect whose path holds control characters (percent-decoded by the server): still a valid header value
                 'slashredirect_ctl': '/files/a\x01b\x1b[31m',
@@ -272,10 +284,11 @@ def impl_kind(case):
         env = wsgi.environ(path, method=method, headers=headers)
         del _SEQ[:]
         exc = None
+        events, problems = [], []
         try:
-            events, problems = record(app, env, method == 'HEAD')
+            record(app, env, method == 'HEAD', events, problems)
         except Exception as e:
-            events, problems, exc = [], [], '%s: %s' % (type(e).__name__, e)
+            exc = '%s: %s' % (type(e).__name__, e)
         still_open = [f.name for f in opened if not f.closed]
         target_calls = [x for x in _SEQ if isinstance(x, tuple) and x[0] == 'target']
         rec = {'events': events, 'problems': problems, 'exc': exc, 'still_open': still_open, 'n_opened': len(opened)}
@@ -372,7 +385,7 @@ def gen_stack(rng):
                 late.append({'prefix': '/late%d' % k, 'sub': level(1)})
             else:
                 late.append({'pattern': '/late%d' % k, 'mws': mws(rng.choice([1, 1, 2]))})
-    return {'lab': 'stack', 'app': app, 'types': types, 'handler_wrapper': rng.random() < 0.3, 'late': late,
+    return {'lab': 'stack', 'app': app, 'types': types, 'handler_wrapper': rng.random() < 0.3, 'late': late, 'late_handler': rng.random() < 0.3,
             'paths': ['/', '/r20', '/s20/r10', '/nope', '/late0']}
 
 
@@ -457,6 +470,15 @@ def run(rep, b, tier, seed, only_cases=None):
             rep.case(json.dumps(c, sort_keys=True), nontrivial=nw >= 2)
             continue
         what = '%s %s (%s)' % (c['method'], c['kind'], c.get('headers'))
+        if c['kind'].endswith('_failing'):
+            # the target starts its response and breaks: the server must see exactly that - one start_response, its exception
+            nstart = sum(1 for e in o['events'] if isinstance(e, list) and e[0] == 'start')
+            if nstart != 1 or not (o['exc'] or '').startswith('RuntimeError: the target broke'):
+                rep.violation('%s: the target called start_response once and raised; the server saw %d start_response call(s) and %s'
+                              % (what, nstart, o['exc'] or 'no exception'), {'case': c, 'signature': 'reroute-relay'})
+            rep.count('kind.' + c['kind'])
+            rep.case(json.dumps(c, sort_keys=True), nontrivial=True)
+            continue
         if o['exc'] and not (c['kind'] in ('boom',) and False):
             rep.violation('%s: %s escaped from the WSGI callable' % (what, o['exc']), {'case': c, 'signature': 'escape'})
         elif verdicts.get(i) is False:
